@@ -635,8 +635,8 @@ def run(res, ctx):
     check_pages(res, ctx, PAGE_CORPUS)
     replay_known(res, ctx)
     # generated
-    check_regexes(res, ctx, [gen_re_string(rng) for _ in range(1500 if q else 20000)])
-    tables = [gen_table(rng) for _ in range(1200 if q else 20000)]
+    check_regexes(res, ctx, [gen_re_string(rng) for _ in range(1500 if q else 60000)])
+    tables = [gen_table(rng) for _ in range(1200 if q else 60000)]
     posts = [rng.choice(["", "", "trailing\n100.0 5\n", BULLET + " X 1.0 2\n", "\r"]) for _ in tables]
     check_tables(res, ctx, tables, posts)
     # tables re-rendered as single lines through the regexes (realistic lines)
@@ -644,10 +644,10 @@ def run(res, ctx):
     for t in tables[:300 if q else 3000]:
         lines += render_table(t).split("\n")[:-1]
     check_regexes(res, ctx, lines[:1500 if q else 15000])
-    check_statements(res, ctx, [gen_statement(rng) for _ in range(600 if q else 8000)])
-    check_statement_oracle(res, ctx, rng, 300 if q else 4000)
+    check_statements(res, ctx, [gen_statement(rng) for _ in range(600 if q else 20000)])
+    check_statement_oracle(res, ctx, rng, 300 if q else 10000)
     pcs = []
-    for _ in range(1500 if q else 20000):
+    for _ in range(1500 if q else 60000):
         n = rng.choice([0, 1, 2, 3, 4, 5, 8, 9, 12, rng.randrange(0, 40)])
         pcs.append((n, gen_hints(rng, n)))
     if not q:
